@@ -166,6 +166,7 @@ fn on_event(name: &str, detail: String, sync_path: Option<&Path>, truncated: Opt
 extern "C" {
     fn syscall(num: i64, ...) -> i64;
 }
+const SYS_RENAME: i64 = 82;
 const SYS_MSYNC: i64 = 26;
 const SYS_FSYNC: i64 = 74;
 const SYS_FDATASYNC: i64 = 75;
@@ -225,6 +226,29 @@ pub unsafe extern "C" fn msync(addr: *mut u8, len: usize, flags: i32) -> i32 {
         if let Some(p) = addr_path(addr as usize) {
             on_event("msync", p.file_name().map(|s| s.to_string_lossy().to_string()).unwrap_or_default(), Some(&p), None);
         }
+    }
+    r
+}
+
+/// rename is a directory operation: durable at once (A-FS); the shadow file moves with its synced content
+#[no_mangle]
+pub unsafe extern "C" fn rename(old: *const std::ffi::c_char, new: *const std::ffi::c_char) -> i32 {
+    let r = syscall(SYS_RENAME, old as i64, new as i64) as i32;
+    if r == 0 && ctx_active() {
+        let o = PathBuf::from(std::ffi::CStr::from_ptr(old).to_string_lossy().to_string());
+        let n = PathBuf::from(std::ffi::CStr::from_ptr(new).to_string_lossy().to_string());
+        let pair = CTX.with(|c| {
+            let g = c.try_borrow().ok()?;
+            let ctx = g.as_ref()?;
+            let (ro, rn) = (o.strip_prefix(&ctx.db).ok()?, n.strip_prefix(&ctx.db).ok()?);
+            Some((ctx.shadow.join(ro), ctx.shadow.join(rn)))
+        });
+        if let Some((so, sn)) = pair {
+            if let (Ok(a), Ok(b)) = (std::ffi::CString::new(so.to_string_lossy().as_bytes()), std::ffi::CString::new(sn.to_string_lossy().as_bytes())) {
+                syscall(SYS_RENAME, a.as_ptr() as i64, b.as_ptr() as i64);
+            }
+        }
+        on_event("rename", n.file_name().map(|s| s.to_string_lossy().to_string()).unwrap_or_default(), None, None);
     }
     r
 }
